@@ -184,6 +184,10 @@ func receiveFromTransport(ctx context.Context, c *channel, done chan<- struct{})
 		if err != nil {
 			if ctx.Err() == nil {
 				log.Printf("receiveFromTransport: %v", err)
+				// The inbound side of the session is lost (undecodable data, oversized envelope, broken
+				// connection) and nobody will read from it again: the session is over. Leaving the
+				// state 'established' made the owner keep using a deaf channel forever.
+				c.setStateWLock(SessionStateFailed)
 			}
 			return
 		}
